@@ -76,7 +76,9 @@ def s_case(draw):
     return {"src": {"shape": [Hs, Ws], "affine": src_aff}, "dshape": [Hd, Wd], "T": Tm, "ttol": ttol, "stol": stol, "klass": klass,
             "places": places, "mirrors": mirrors, "dtype": draw(st.sampled_from(DTYPES)),
             # destination nodata handed to the warp for bool rasters (None: not given; 0 / False: given explicitly)
-            "bool_nodata": draw(st.sampled_from(["none", "zero", "false"]))}
+            "bool_nodata": draw(st.sampled_from(["none", "zero", "false"])),
+            # documented planning options; whatever they are, a reported paste must still be a paste
+            "opts": draw(st.sampled_from([{}, {}, {}, {"padding": 0}, {"padding": 1}, {"padding": 3}, {"align": 0}, {"align": 4}, {"padding": 1, "align": 2}]))}
 
 
 def _mk(case):
@@ -112,7 +114,10 @@ def o_paste(case, T):
         T.exclude("backend_identity_transform")
         return
     ttol, stol = case["ttol"], case["stol"]
-    info = compute_reproject_roi(src, dst, ttol=ttol, stol=stol)
+    opts = case.get("opts") or {}
+    info = compute_reproject_roi(src, dst, ttol=ttol, stol=stol, **opts)
+    if opts:
+        T.cls("opts:" + "+".join("%s=%s" % kv for kv in sorted(opts.items())))
     M = exact_map(src, dst)
     a, b, c, d, e, f = M.m
     Hs, Ws = src.shape
@@ -143,6 +148,10 @@ def o_paste(case, T):
     for v, name in ((a, "x"), (e, "y")):
         sc = abs(v) / rs
         require(abs(sc - 1) <= Fr(stol) + slack, "paste_ok but %s scale %r is not within stol=%r of the integer read_shrink %d", name, float(abs(v)), stol, rs)
+    # the reported scale (the smaller of the two) is itself within stol of the integer - the tolerance is on the scale,
+    # it does not grow with the shrink factor
+    smin = min(abs(a), abs(e))
+    require(abs(smin - rs) <= Fr(stol) + slack, "paste_ok but the scale %r differs from the integer %d by %.4g > stol=%r", float(smin), rs, float(abs(smin - rs)), stol)
     for v, name in ((c, "x"), (f, "y")):
         t_ov = v / rs
         require(frac_dist(t_ov) <= Fr(ttol) + slack, "paste_ok but %s translation %r (overview pixels) is %.4g from a whole pixel (> ttol=%r)", name, float(t_ov), float(frac_dist(t_ov)), ttol)
